@@ -32,7 +32,9 @@ def units(tier):
             ob = outcome_of(lambda: ip.instantiate(c, [r], {}, ctx))
             ctx._code_outcome = ob
             os_ = outcome_of(lambda: ip.call_function(func("spec." + ref), [r] + wfextra() + extra(), {}, ctx))
-            return field_obligations(ip, ctx, f"{PROP}/{clsname}", ob, os_)
+            return field_obligations(ip, ctx, f"{PROP}/{clsname}", ob, os_) + [
+                Obligation(f"{PROP}/{clsname}/parsing_assigns_nothing", ctx, not ctx.ghost.heap_writes and not ctx.ghost.module_writes,
+                           note=str(ctx.ghost.module_writes[:2]))]
 
         def wit(ctx, model):
             return {"case": {"prop": PROP, "kind": kind or name, "inputs": {"r": concretise(ctx.inputs["r"], model)}},
@@ -89,5 +91,6 @@ def search_cases(o, seed):
 
 def native_cases(tier, seed):
     return [{"prop": PROP, "kind": "sweep", "inputs": {"seed": seed, "n": 3000 if tier == "quick" else 100000}},
+            {"prop": PROP, "kind": "repeats", "inputs": {"seed": seed, "n": 300 if tier == "quick" else 10000}},
             {"prop": PROP, "kind": "shipped", "inputs": {}},
             {"prop": PROP, "kind": "amps", "inputs": {"step": 7 if tier == "quick" else 1}}]
